@@ -875,7 +875,29 @@ impl Interp {
                 }
             }
             V::Str(s) => Some(s.borrow().clone()),
-            V::Null | V::Arr(_) | V::Func(_) | V::Unspec => None,
+            // arrays print as [a, b, ...] with every element as it prints by itself (examples/selectie-sorteer.nl);
+            // an array that contains itself, null or a function has no documented text
+            V::Arr(_) => self.array_text(v, &mut Vec::new()),
+            V::Null | V::Func(_) | V::Unspec => None,
+        }
+    }
+
+    fn array_text(&self, v: &V, path: &mut Vec<*const RefCell<Vec<V>>>) -> Option<String> {
+        match v {
+            V::Arr(a) => {
+                let p = Rc::as_ptr(a);
+                if path.contains(&p) {
+                    return None;
+                }
+                path.push(p);
+                let mut parts = Vec::new();
+                for x in a.borrow().iter() {
+                    parts.push(self.array_text(x, path)?);
+                }
+                path.pop();
+                Some(format!("[{}]", parts.join(", ")))
+            }
+            other => self.text(other),
         }
     }
 
@@ -892,7 +914,7 @@ impl Interp {
             for a in &args {
                 match self.text(a) {
                     Some(t) => texts.push(t),
-                    None => return unspec("U12/U16: print of null, an array, a function or an extreme float"),
+                    None => return unspec("U12/U16: print of null, a function, an array that contains those or itself, or an extreme float"),
                 }
             }
             let fmt = texts[0].clone();
